@@ -33,6 +33,9 @@ def run(ctx, db, tier):
     publish.check_no_touch(ctx, db, 'C02.publish-discipline', summ, per_instance=(tier == 'thorough'), floor=12)
     init_before_publish(ctx, db, summ)
     sync_waits(ctx, db)
+    ready_means_resolved(ctx, db)
+    from . import C01
+    C01.dtor_and_assign(ctx, db, 'C02.abandoned-promise-releases')
     atomic.check_roles(ctx, db, 'C02.observes-complete-result', only_functions=RESULT_VISIBILITY_FUNCTIONS, floor=8)
     shared.final_awaiter(ctx, db, 'C02.final-awaiter')
     shared.set_then_resolve_min(ctx, db, 'C02.not-before-result')
@@ -42,21 +45,22 @@ def subscribe_protocol(ctx, db):
     rid = ctx.rule('C02.subscribe-protocol', 'PATHS', 'awaiter::subscribe_check_ready: the slot is written only by a CAS whose desired value is this; true is returned only on the '
                    'CAS success edge; every failed attempt compares the observed value with the ready marker and equality returns false; a refusal leaves _next null '
                    '(the awaiter stays reusable)', floor=4)
-    for f, trs in traces_of(db, 'cocls::awaiter::subscribe_check_ready', depth=0, per_instance=False, maxvisit=3):
+    for f, trs in traces_of(db, 'cocls::awaiter::subscribe_check_ready', per_instance=False, maxvisit=3):
         ctx.paths(rid, len(trs))
-        cas = [e for e in f.events() if e.k == 'call' and atomic.is_atomic_call(e) and atomic.opname(e).startswith('compare_exchange')]
-        others = [e for e in f.events() if e.k == 'call' and atomic.is_atomic_call(e) and atomic.objname(e) == 'param:chain' and atomic.opname(e) in ('store', 'exchange', 'operator=', 'fetch_add')]
+        allev = {(it.get('fn'), it.get('id')): it for tr in trs for it in evs(tr) if it.k == 'call'}
+        cas = [e for e in allev.values() if atomic.is_atomic_call(e) and atomic.opname(e).startswith('compare_exchange')]
+        others = [e for e in allev.values() if atomic.is_atomic_call(e) and atomic.objname(e) == 'param:chain' and atomic.opname(e) in ('store', 'exchange', 'operator=', 'fetch_add')]
         ok1 = len(cas) >= 1 and not others and all(len(c.get('args', [])) >= 2 and c['args'][1].get('path') == 'this' and c['args'][0].get('path') == 'this->_next' for c in cas)
         ctx.ob(rid, f, f['key'], ok1, 'the only write to the chain is compare_exchange(expected=_next, desired=this)', desc='slot written other than by CAS(_next,this)')
         bad_true = None; bad_false = None; bad_cmp = None; bad_reset = None; nfalse = 0; ntrue = 0
         for tr in trs:
             if not live(tr):
                 continue
-            ret = [it for it in tr if it.k == 'return']
-            if not ret:
+            if not [it for it in tr if it.k == 'return']:
                 continue
-            rv = ret[-1].get('const')
-            brs = [(i, it) for i, it in enumerate(tr) if it.k == 'branch' and any(tests(it, c) for c in cas)]
+            rv = ret_const(tr)
+            cas_tr = [it for it in evs(tr) if it.k == 'call' and atomic.is_atomic_call(it) and atomic.opname(it).startswith('compare_exchange')]
+            brs = [(i, it) for i, it in enumerate(tr) if it.k == 'branch' and any(tests(it, c) for c in cas_tr)]
             if rv == 1 or rv is None:
                 ntrue += 1
                 if not brs or brs[-1][1].val is not True:
@@ -101,8 +105,8 @@ def _is_equal_true(br):
     return False
 
 
-def resolve_one_rmw(ctx, db):
-    rid = ctx.rule('C02.resolve-one-rmw', 'ATOMIC+WHO', 'resume_chain_set_ready / resume_chain detach the chain with exactly one exchange whose result flows only into resume_chain_lk; '
+def resolve_one_rmw(ctx, db, rid='C02.resolve-one-rmw'):
+    rid = ctx.rule(rid, 'ATOMIC+WHO', 'resume_chain_set_ready / resume_chain detach the chain with exactly one exchange whose result flows only into resume_chain_lk; '
                    'resume_chain_set_ready installs the ready marker; the slot of a future is written only by the tabled functions', floor=3)
     for name, newval in (('cocls::awaiter::resume_chain_set_ready', '&(param:ready_state)'), ('cocls::awaiter::resume_chain', 'nullptr')):
         for f in _keys(db, name):
@@ -166,6 +170,8 @@ def walk(ctx, db):
                         if re.fullmatch(r'(local|param):\w+|this->\w+', it.get('rhs') or '') and it['rhs'] in dead:
                             dead.add(p)
                         continue
+                    if it.k == 'call' and not is_resume(it):
+                        dead.discard('call(%s)' % norm(it.get('callee')))     # a new call yields a new value under the same textual path
                     if dead and it.k in ('read', 'write', 'call'):
                         p = it.get('path') or it.get('recv') or ''
                         for dvar in dead:
@@ -272,8 +278,8 @@ def init_before_publish(ctx, db, summ, rid='C02.init-before-publish'):
                    desc='awaiter published before set_handle/set_resume_fn', trace=fmt_trace(bad) if bad else None)
 
 
-def sync_waits(ctx, db):
-    rid = ctx.rule('C02.sync-waits', 'ORDER', 'co_awaiter::sync / force_sync: the thread blocks on the sync_awaiter\'s flag exactly on the registered edge (a refused registration '
+def sync_waits(ctx, db, rid='C02.sync-waits'):
+    rid = ctx.rule(rid, 'ORDER', 'co_awaiter::sync / force_sync: the thread blocks on the sync_awaiter\'s flag exactly on the registered edge (a refused registration '
                    'must not block, a registered one must block before the awaiter\'s lifetime ends)', floor=2)
     for name in ('cocls::co_awaiter::sync', 'cocls::co_awaiter::force_sync'):
         for f, trs in traces_of(db, name, depth=1, inline=inline_only('cocls::sync_awaiter::wait_sync'), per_instance=False):
@@ -301,3 +307,26 @@ def sync_waits(ctx, db):
             if nreg == 0 and not bad:
                 bad = ('no registered path', trs[0] if trs else [])
             ctx.ob(rid, f, f['key'], bad is None, 'blocks iff registered' + ('' if not bad else ' -- ' + bad[0]), desc=(bad[0] if bad else None), trace=fmt_trace(bad[1]) if bad else None)
+
+
+def ready_means_resolved(ctx, db):
+    """a waiter that skips the suspension because await_ready answered true reads the result at once: that answer may only come from ready()
+    (the acquire load that sees the ready marker), never from the payload's state tag, which is written before the resolution"""
+    rid = ctx.rule('C02.ready-means-resolved', 'PATHS', 'await_ready of the future awaiters (co_awaiter, future::awaitable_bool): every path returns the answer of the owner\'s ready() '
+                   '(or constant false); no path answers from anything else (the state tag is stored before the future is resolved)', floor=2)
+    for name in ('cocls::co_awaiter::await_ready', 'cocls::future::awaitable_bool::await_ready'):
+        for f, trs in traces_of(db, name, per_instance=False):
+            trs = [t for t in trs if live(t)]
+            ctx.paths(rid, len(trs))
+            bad = None
+            for tr in trs:
+                if ret_const(tr) == 0:
+                    continue
+                p = ret_expr(tr) or ''
+                if not re.fullmatch(r'call\((cocls::[\w:]+)::ready\)', p):
+                    bad = bad or ('a path answers %s' % (p or '?')[:80], tr)
+                    continue
+                rc = [c for c in calls(tr) if norm(c.get('callee') or '').endswith('::ready')]
+                if not rc or not (rc[-1].get('recv') or '').endswith('_owner'):
+                    bad = bad or ('ready() is not asked of the awaited object', tr)
+            ctx.ob(rid, f, f['key'], bad is None, 'await_ready answers only from _owner.ready()' + ('' if not bad else ' -- ' + bad[0]), desc=bad[0] if bad else None, trace=fmt_trace(bad[1]) if bad else None)
